@@ -485,6 +485,8 @@ theorem buildGate_ok {cfg : Config} {mode : KeyMode} {ctx : Ctx} {f : Nat} {args
   split at h
   · simp [throw_eq] at h
   · rename_i name gargs
+    obtain ⟨_, _, h⟩ := bind_ok h
+    unfold buildGateMemo at h
     simp only [BSx.noValsList, BSx.noVals, Bool.true_and] at hn
     have hfresh : ∀ (p : Stmt × GCtx), buildGateFresh cfg (buildVal ctx f) name gargs st.gctx = .ok p → StmtOK p.1 := by
       intro p hb
